@@ -394,6 +394,32 @@ func (e *Engine) runLemmaUnit(u *Unit) {
 	for _, rq := range env.expand(lm.Requires) {
 		st.assume(rq.term)
 	}
+	if lm.Induction != "" {
+		// induction on the integer parameter: for values > 0 the statement at value-1 (same other parameters) is the
+		// hypothesis; values <= 0 are proved without one. Sound by induction on max(value, 0).
+		iv, ok := env.vars[lm.Induction]
+		if !ok || sortOf(iv.T) != "Int" {
+			env.errf("induction needs an integer parameter, got %q", lm.Induction)
+		} else {
+			henv := &Env{eng: e, st: st, pkg: pkg, vars: map[string]Val{}, where: "induction hypothesis of " + lm.Name, oldSnap: st.unitOld, hasOld: true}
+			for k, v := range env.vars {
+				henv.vars[k] = v
+			}
+			henv.vars[lm.Induction] = Val{S: sub(iv.S, "1"), T: iv.T}
+			var pre, post []string
+			for _, rq := range henv.expand(lm.Requires) {
+				pre = append(pre, rq.term)
+			}
+			for _, s := range lm.Steps {
+				if s.Kind == "assert" {
+					post = append(post, henv.evalBool(s.Expr))
+				} else {
+					env.errf("an induction lemma may contain requires and assert clauses only")
+				}
+			}
+			st.assume(implies(fmt.Sprintf("(> %s 0)", iv.S), implies(and(pre...), and(post...))))
+		}
+	}
 	st.oblige("cover-pre", u.Name+"#cover-pre", "false", token.NoPos)
 	e.obligations[len(e.obligations)-1].ExpectSat = true
 	nassert := 0
